@@ -100,10 +100,10 @@ func source(items []item) string {
 }
 
 type DocCase struct {
-	Src        eng.Q `json:"src"`
-	Twin       eng.Q `json:"twin"` // hand-stripped source, no markers, options off
-	TrimBlocks bool  `json:"trim_blocks"`
-	LStrip     bool  `json:"lstrip_blocks"`
+	Src        eng.Q  `json:"src"`
+	Twin       eng.Q  `json:"twin"` // hand-stripped source, no markers, options off
+	TrimBlocks bool   `json:"trim_blocks"`
+	LStrip     bool   `json:"lstrip_blocks"`
 	Kind       string `json:"kind"`
 }
 
